@@ -458,9 +458,9 @@ class Target(DataExchangeProtocol):
             self.lrt = lrt
             self.gbt = gbt
             self.gbi = atr_req.gb
-            self.miu = atr_req.lr - 3
-            self.rwt = 4096/13.56E6 * pow(2, rwt)
             self.did = atr_req.did if atr_req.did > 0 else None
+            self.miu = atr_req.lr - 3 - int(self.did is not None)
+            self.rwt = 4096/13.56E6 * pow(2, rwt)
             self.acm = not (target.sens_res or target.sensf_res)
             self.cmd = bytearray(
                 struct.pack("B", len(target.dep_req)+1) + target.dep_req)
